@@ -85,6 +85,8 @@ pub enum Ins {
     LoadQ(Ty, String),
     Cached(Ty, String),
     Owned(Ty, String),
+    /// `get_or_insert` of (type, id) with a placeholder value, inside the load (may be the very key being loaded)
+    Insert(Ty, String, u64),
     Read(String, String),
     ReadDir(String),
     /// run under `cache.no_record`
@@ -274,6 +276,7 @@ pub fn run_ins(cache: AnyCache, ins: &Ins, out: &mut Vec<String>, masked: bool) 
         },
         Ins::Cached(ty, id) => out.push(mark(masked, match any_cached(cache, *ty, id) { Some(s) => format!("some:{s}"), None => "none".into() })),
         Ins::Owned(ty, id) => out.push(mark(masked, show_res(any_owned(cache, *ty, id)))),
+        Ins::Insert(ty, id, n) => out.push(mark(masked, format!("ins:{}", crate::hist::any_insert(cache, *ty, id, *n)))),
         Ins::Read(id, ext) => {
             let src = cache.raw_source();
             let r = src.read(id, ext);
